@@ -150,3 +150,9 @@ Definition judge_no_crash (cls : Z) : bool := (cls =? 0) || (cls =? 1).
 (** a constant / code object written by the compiler is read back: Ok, the normalised value, nothing left over *)
 Definition judge_read_back (ver : Z) (v : value) (cls : Z) (obs : sx) (rest : Z) : bool :=
   (cls =? 0) && sx_eqb obs (enc_value (norm ver v)) && (rest =? 0).
+
+(* ------------------------------------------------------------------------------------------------ known finding *)
+(** `erg --mode read` = from_pyc, then CodeObj::code_info (the disassembler) on the result. The disassembler is not
+    modelled; it panics on bytecode the compiler would not emit (unknown opcode, operand out of range). The class of
+    inputs on which the command can crash although [read_total] holds: those that deserialise. known/C15.json *)
+Definition Known_C15_disasm (bs : list Z) : bool := match read_pyc bs with Ok _ => true | _ => false end.
